@@ -18,4 +18,7 @@ var Checks = map[string]vk.Check{
 	"C05": C05,
 	"C14": C14,
 	"C01": C01,
+	"C07": C07,
+	"C15": C15,
+	"C16": C16,
 }
